@@ -249,7 +249,7 @@ func checkRoundTrip(c *mon.Ctx, stage string, idx int64, hr *HistRun) {
 }
 
 func runC01(c *mon.Ctx) {
-	n := c.Pick(2000, 10000)
+	n := c.Pick(2000, 150000)
 	for i := int64(0); i < n; i++ {
 		if !c.Mine("histories", i) {
 			continue
@@ -270,7 +270,7 @@ func runC01(c *mon.Ctx) {
 		}
 	}
 	// an explicit PID is removed and the same PID is handed out again by automatic assignment
-	nra := c.Pick(200, 3000)
+	nra := c.Pick(200, 30000)
 	for i := int64(0); i < nra; i++ {
 		if !c.Mine("readd-auto", i) {
 			continue
